@@ -240,6 +240,10 @@ def _replay(path):
         bad = (not rep.get("ok")) or any(not rep["obligations"].get(o, False) for o in C07_OBLIGATIONS)
         print("VERDICT: %s" % ("still broken" if bad else "obligations hold now"))
         return 1 if bad else 0
+    if (obj.get("history") or {}).get("yield_resume"):
+        print("-- model (Conc/YieldRetry.v): a YIELD that found the caller's queue full is delivered at the first retry "
+              "instant (1, 3, 7, ... ms) at which the caller has room, exactly once; otherwise the call is cancelled "
+              "at 65 535 ms; the invocation is kept during the retries; the callee's handler is released at that instant")
     print("-- model (Conc/Stall.v, Conc/Ranked.v): every request of a non-stalled session is taken at once "
           "(latency 0) unless it yields to a stalled caller; outbox <= capacity; no cycle of waits")
     rc, out = cs.replay(path)
